@@ -199,7 +199,11 @@ def run_calls(ctx):
     quick = ctx.tier == 'quick'
     ctx.cov['rule'] = ctx.cov.get('rule', '') + (
         ' HTML CALL SEQUENCES (caller-owned options): every options object is built fresh from one of %d templates (%s) '
-        'and shared the way a caller shares it -- `event`: one object per (string, position) passed to match, '
+        '-- among them OPTION VALUES OF EVERY TYPE that can express the documented meaning: `xml` as True / 1 / 0 / None, '
+        '`empty` as list / tuple / frozenset / dict keys, a `special` entry as None, as a flag (True, 1), as another empty '
+        'value (False, 0, \'\', ()), as list / empty list / tuple / frozenset / dict / string, a `special` table that is None '
+        '(for the model: xml by truth, a non-list entry = always special, as the code reads them; oracle = the statement '
+        'only) -- and shared the way a caller shares it -- `event`: one object per (string, position) passed to match, '
         'balanced_outward, balanced_inward in one of the 6 orders; `document`: one object per string passed to scan (its '
         '`special` table) and to the three functions at all positions; `interleaved`: two objects from different templates '
         'per (string, position), calls alternating between them. Strings: %d hand-written documents in which xml / empty / '
